@@ -28,6 +28,7 @@ Spaces (see DESIGN.md C07):
 import array
 import json
 import os
+import re
 import sys
 
 from vlib import cbuild
@@ -89,6 +90,17 @@ def _build(name):
     return b, exe
 
 
+def _san(err):
+    """Deterministic digest of a sanitizer report (addresses, pids and shadow dumps vary per run)."""
+    keep = [l.strip() for l in err.splitlines()
+            if re.search(r"ERROR: AddressSanitizer|runtime error|is located|SUMMARY|^\s*#[0-3] ", l)]
+    txt = " | ".join(keep[:8]) if keep else err.strip()[-300:]
+    txt = re.sub(r"0x[0-9a-fA-F]+", "0x..", txt)
+    txt = re.sub(r"==\d+==", "", txt)
+    txt = re.sub(r"/build/[A-Za-z0-9_]+\.\d+/", "/build/../", txt)
+    return re.sub(r"\(BuildId: [0-9a-f]+\)", "", txt)
+
+
 def _idx(ma, v):
     try:
         return ma.index(v)
@@ -119,7 +131,7 @@ def _pymsg(hsn, maio, n, fn, got, want, fw=None):
 
 def _fw_run(args):
     rc, out, err = cbuild.run(_exe, args)
-    return rc, out.decode(), err.decode()[-2000:]
+    return rc, out.decode(), (_san(err.decode()) if rc not in (0, 1) else "")
 
 
 def _py_red(n):
@@ -127,7 +139,7 @@ def _py_red(n):
     gs = _toolkit()
     rc, out, err = cbuild.run(_exe, ["red", n])
     if rc != 0 or len(out) != 64 * SUPER * 4 * 2:
-        return {"crash": (rc, err.decode()[-800:])}
+        return {"crash": (["red", n], rc, _san(err.decode()))}
     ma = make_ma(n)
     fwall = array.array("H")
     fwall.frombytes(out)
@@ -246,7 +258,7 @@ def _py_hsn0(n):
     rc, out, err = cbuild.run(_exe, ["vec"], stdin=vec.encode())
     fwl = [int(l.split()[0][3:]) for l in out.decode().splitlines() if l.startswith("fw=")]
     if rc != 0 or len(fwl) != 64 * len(fns):
-        return {"crash": (rc, err.decode()[-800:])}
+        return {"crash": (["hsn0"], rc, _san(err.decode()))}
     o = 0
     for maio in range(64):
         hp = gs.HoppingParams(0, maio, ma)
@@ -348,7 +360,7 @@ def _take_fw(ctx, what, rc, out, err, tot, seen):
             js = json.loads(line)
     if js is None:
         ctx.violation("C07:firmware:crash", {"impl": "firmware-run", "args": what},
-                      "driver died (rc=%d) in `%s`: %s" % (rc, " ".join(map(str, what)), err[-700:]))
+                      "driver died (rc=%d) in `%s`: %s" % (rc, " ".join(map(str, what)), _san(err)))
         return
     for k in ("evaluations", "nontrivial", "direct", "wrapped", "cyclic"):
         tot[k] = tot.get(k, 0) + js[k]
@@ -360,7 +372,13 @@ def _take_fw(ctx, what, rc, out, err, tot, seen):
 
 def _take_py(ctx, res, seen=None):
     if "crash" in res:
-        raise HarnessError("driver failed while producing comparison vectors: rc=%r %s" % res["crash"])
+        what, rc, err = res["crash"]
+        if rc in (98, 99) or rc < 0:
+            # sanitizer report / signal inside the firmware code while producing comparison vectors
+            ctx.violation("C07:firmware:crash", {"impl": "firmware-run", "args": what},
+                          "driver died (rc=%d) in `%s`: %s" % (rc, " ".join(map(str, what)), err))
+            return
+        raise HarnessError("driver failed while producing comparison vectors (%s): rc=%r %s" % (what, rc, err))
     s = res.pop("seen", None)
     if s is not None and seen is not None:
         seen.update(s)
@@ -483,7 +501,10 @@ def replay(ctx, case):
     try:
         if impl == "firmware-run":
             rc, out, err = _fw_run(case["args"])
-            _take_fw(ctx, case["args"], rc, out, err, {}, set())
+            if case["args"][0] in ("full", "hsn0"):
+                _take_fw(ctx, case["args"], rc, out, err, {}, set())
+            elif rc not in (0, 1):
+                ctx.violation("C07:firmware:crash", case, "driver died (rc=%d) in `%s`: %s" % (rc, " ".join(map(str, case["args"])), err))
             return
         hsn, maio, n, fn = case["hsn"], case["maio"], case["n"], case["fn"]
         rc, out, err = cbuild.run(_exe, ["vec"], stdin=("%d %d %d %d\n" % (hsn, maio, n, fn)).encode())
@@ -492,7 +513,7 @@ def replay(ctx, case):
             if line.startswith("fw="):
                 f = dict(p.split("=") for p in line.split())
         if f is None:
-            ctx.violation("C07:firmware:crash", case, "driver died rc=%d: %s" % (rc, err.decode()[-500:]))
+            ctx.violation("C07:firmware:crash", case, "driver died rc=%d: %s" % (rc, _san(err.decode())))
             return
         want = hopping.mai(hsn, maio, n, fn)
         if int(f["fw"]) != ma_val(want) or int(f["spec"]) != want:
